@@ -139,6 +139,10 @@ def gen_doc(rng):
             g.emit(indent(f"{d} {fname}({', '.join(params)}){ret}:", ind))
         sig_text = "\n".join(g.lines[fline:])
         before_close = sig_text[:sig_text.rfind(")")].rstrip()
+        if rng.random() < 0.2:
+            # a trailing comment with parentheses / a colon after the signature's own "):"
+            g.lines[-1] += rng.choice(["  # regression (issue 12)", "  # type: (int) -> None", "  # see: notes (a, b):"])
+            shape = shape + "+comment"
         g.funcs.append({"name": fname, "line0": fline, "shape": shape, "kind": kind, "declared": declared,
                         # signatures on which the textual insertion is known to fail (recorded finding)
                         "simple": not (bool(ret) or before_close.endswith(",") or any("=" in p_ for p_ in params))})
@@ -295,8 +299,9 @@ def run(ctx):
                 "CPython and the server; distinct = (use form class, label, function shape) and edit outcomes")
     root = ctx.scratch("ws")
     conf = HDR + "".join(f"@pytest.fixture\ndef {n_}():\n    return 1\n\n" for n_ in VISIBLE)
-    write_tree(root, {"conftest.py": conf, "sib/conftest.py": HDR + "@pytest.fixture\ndef inv_sibling():\n    return 1\n",
-                      "pkg/test_doc.py": ""})
+    # the sibling conftest (invisible from pkg/) also defines a name that IS visible through the root conftest
+    sib = HDR + "@pytest.fixture\ndef inv_sibling():\n    return 1\n\n@pytest.fixture\ndef " + VISIBLE[0] + "():\n    return 2\n"
+    write_tree(root, {"conftest.py": conf, "sib/conftest.py": sib, "pkg/test_doc.py": ""})
     f = os.path.join(root, "pkg", "test_doc.py")
     srv = LSP(srv_bin(), root, locklog=os.path.join(ctx.scratch_root, "lock_srv.log"))
     try:
@@ -307,6 +312,13 @@ def run(ctx):
         if os.environ.get("VERIF_ONLY_PINNED"):
             return
         for i in range(n):
+            if i == 0 or i == n // 2:
+                # registration order of the two same-named definitions: re-analysing a conftest moves its records last
+                which = "conftest.py" if i == 0 else "sib/conftest.py"
+                before = srv.seq
+                srv.did_open(os.path.join(root, which), conf if i == 0 else sib)
+                srv.wait_diagnostics(os.path.join(root, which), before, timeout=10)
+                ctx.nontrivial(("same_name_in_sibling_conftest_registered", "first" if i == 0 else "last"))
             g = gen_doc(ctx.rng)
             text = "\n".join(g.lines) + "\n"
             try:
